@@ -35,7 +35,8 @@ fn format_number(
 ) -> Resolved {
     let value: Decimal = match value {
         Value::Integer(v) => v.into(),
-        Value::Float(v) => Decimal::from_f64(*v).expect("not NaN"),
+        Value::Float(v) => Decimal::from_f64(*v)
+            .ok_or_else(|| format!("float {v} is outside the decimal range"))?,
         value => {
             return Err(ValueError::Expected {
                 got: value.kind(),
